@@ -10,6 +10,9 @@ use proptest::prelude::*;
 use serde::{Deserialize, Serialize};
 
 const CMR10: &str = "/repo/crates/tfm/corpus/computer-modern/cmr10.tfm";
+/// A second text font with other space parameters (2.9pt plus 1.73999pt minus 0.7pt, extra space 0.7pt) that has
+/// all the ASCII letters and punctuation of cmr10.
+const SECOND: &str = "/repo/crates/tfm/corpus/ctan/6vcr8r.tfm";
 
 struct Font {
     tfm: tfm::File,
@@ -20,12 +23,12 @@ struct Font {
     extra: i64,
 }
 
-fn load_font() -> Font {
-    let bytes = std::fs::read(CMR10).unwrap_or_else(|e| {
-        eprintln!("cannot read {CMR10}: {e}");
+fn load_font(path: &str) -> Font {
+    let bytes = std::fs::read(path).unwrap_or_else(|e| {
+        eprintln!("cannot read {path}: {e}");
         std::process::exit(2)
     });
-    let mut tfm_file = tfm::File::deserialize(&bytes).0.expect("cmr10 parses");
+    let mut tfm_file = tfm::File::deserialize(&bytes).0.expect("corpus font parses");
     let program = tfm::ligkern::CompiledProgram::compile_from_tfm_file(&mut tfm_file).0;
     let p = |n| tfm_file.named_param_scaled(n).unwrap().0 as i64;
     let (space, stretch, shrink, extra) = (p(tfm::NamedParameter::Space), p(tfm::NamedParameter::Stretch), p(tfm::NamedParameter::Shrink), p(tfm::NamedParameter::ExtraSpace));
@@ -33,7 +36,20 @@ fn load_font() -> Font {
 }
 
 thread_local! {
-    static FONT: Font = load_font();
+    /// corpus fonts: 0 = cmr10, 1 = the second font
+    static FONTS: [Font; 2] = [load_font(CMR10), load_font(SECOND)];
+}
+
+/// Which corpus font is registered under which font id, and which id is active: `(corpus font per id, active id)`.
+/// 0 is the set-up of boxworks-bin (one font, id 0); the others register two fonts, so that a font id or a
+/// parameter look-up hard-wired to 0 becomes visible.
+fn font_plan(setup: u8) -> (&'static [usize], u32) {
+    match setup % 4 {
+        0 => (&[0], 0),
+        1 => (&[1, 0], 1),
+        2 => (&[0, 1], 1),
+        _ => (&[1, 0], 0),
+    }
 }
 
 struct NoHyphenation;
@@ -60,6 +76,12 @@ impl GlueSpec {
     }
 }
 
+/// TeX compares glue parameters with the `zero_glue` pointer (TeX 887, 1041, 1043); a parameter points to `zero_glue`
+/// exactly when its three amounts are zero, whatever the orders (`trap_zero_glue`, TeX 1229).
+fn is_zero_glue(g: &Glue) -> bool {
+    g.width.0 == 0 && g.stretch.0 == 0 && g.shrink.0 == 0
+}
+
 #[derive(Clone, Debug, Serialize, Deserialize)]
 pub struct BreakParams {
     pub widths: Vec<i32>,
@@ -78,6 +100,10 @@ pub struct BreakParams {
     pub hyphen_penalty: i32,
     pub ex_hyphen_penalty: i32,
     pub line_penalty: i32,
+    /// What the vertical list holds before the paragraph is appended: 0 nothing, 1 a penalty, 2 a box followed by a
+    /// penalty, glue and a kern, 3 the lines of a paragraph broken before with the same parameters.
+    #[serde(default)]
+    pub pre_vlist: u8,
 }
 
 impl BreakParams {
@@ -101,6 +127,14 @@ impl BreakParams {
     }
 }
 
+/// Runs of blanks as a TeX source holds them between two words of one paragraph: blanks, tabs (category 10 in
+/// plain TeX) and at most one end of line. TeX's scanner (344-348) turns every such run into one space token.
+const BLANKS: [&str; 9] = [" ", "  ", "\t", "\n", " \n ", "\t ", "   ", " \t", "\n  "];
+
+fn blank(i: u8) -> &'static str {
+    BLANKS[i as usize % BLANKS.len()]
+}
+
 #[derive(Clone, Debug, Serialize, Deserialize)]
 pub struct TextCase {
     pub words: Vec<String>,
@@ -112,6 +146,40 @@ pub struct TextCase {
     pub custom_sf: Vec<(u8, i32)>,
     pub hyphenate: bool,
     pub bp: BreakParams,
+    /// run of blanks after word i (index into BLANKS, used cyclically; empty: single blanks)
+    #[serde(default)]
+    pub seps: Vec<u8>,
+    /// the leading run of blanks if `leading_space`
+    #[serde(default)]
+    pub lead: u8,
+    /// 0: the text ends with its last word; k > 0: it ends with the run BLANKS[k-1]
+    #[serde(default)]
+    pub trail: u8,
+    /// a text set before with the same preprocessor (its list is thrown away)
+    #[serde(default)]
+    pub primer: Option<String>,
+    /// see `font_plan`
+    #[serde(default)]
+    pub font_setup: u8,
+}
+
+impl TextCase {
+    fn text(&self) -> String {
+        let mut t = String::new();
+        if self.leading_space {
+            t.push_str(blank(self.lead));
+        }
+        for (i, w) in self.words.iter().enumerate() {
+            if i > 0 {
+                t.push_str(if self.seps.is_empty() { " " } else { blank(self.seps[(i - 1) % self.seps.len()]) });
+            }
+            t.push_str(w);
+        }
+        if self.trail > 0 {
+            t.push_str(blank(self.trail - 1));
+        }
+        t
+    }
 }
 
 #[derive(Clone, Copy, Default)]
@@ -140,40 +208,80 @@ fn sf_codes(c: &TextCase) -> boxworks_text::SpaceFactorCodes {
     t
 }
 
+/// The value of TeX's `xn_over_d` (TeX 107) also when it sets `arith_error`: the procedure then returns the
+/// intermediate `u` = floor(|x|*n / 2^15) with the sign of x. TeX 1044 uses the result without looking at `arith_error`.
+fn tex_xn_over_d(x: i64, n: i64, d: i64) -> i64 {
+    match ta::xn_over_d(x, n, d) {
+        Some((q, _)) => q,
+        None => {
+            let a = x.abs();
+            let t = (a % 0o100000) * n;
+            let u = (a / 0o100000) * n + (t / 0o100000);
+            if x >= 0 {
+                u
+            } else {
+                -u
+            }
+        }
+    }
+}
+
+#[derive(Default)]
+struct SpaceModel {
+    /// glue of the leading run of blanks (if any) and of the run after every word but the last
+    glues: Vec<Glue>,
+    /// the glue that a run of blanks after the last word stands for
+    trailing: Option<Glue>,
+    /// a glue was taken from \xspaceskip
+    used_xspace: bool,
+    /// \spaceskip was modified by a space factor below 1000
+    modified_space_skip_small: bool,
+    /// TeX 1044 set arith_error
+    overflow: bool,
+}
+
 /// TeX 1034, 1041-1044
-fn model_spaces(c: &TextCase, f: &Font, dev: Deviations) -> Vec<Glue> {
+fn model_spaces(c: &TextCase, f: &Font, dev: Deviations) -> SpaceModel {
     let codes = sf_codes(c);
     let mut sf: i64 = 1000;
-    let mut out = vec![];
+    let mut m = SpaceModel::default();
     let space_skip = c.space_skip.as_ref().map(|g| g.to_glue()).unwrap_or(Glue::ZERO);
     let xspace_skip = c.xspace_skip.as_ref().map(|g| g.to_glue()).unwrap_or(Glue::ZERO);
     let font_glue = Glue { width: Scaled(f.space as i32), stretch: Scaled(f.stretch as i32), stretch_order: GlueOrder::Normal, shrink: Scaled(f.shrink as i32), shrink_order: GlueOrder::Normal };
-    let mut space = |sf: i64| -> Glue {
+    let space = |sf: i64, m: &mut SpaceModel| -> Glue {
         if sf == 1000 {
-            if !space_skip.is_zero() {
+            if !is_zero_glue(&space_skip) {
                 space_skip
             } else {
                 font_glue
             }
-        } else if sf >= 2000 && !xspace_skip.is_zero() {
+        } else if sf >= 2000 && !is_zero_glue(&xspace_skip) {
+            m.used_xspace = true;
             xspace_skip
         } else {
-            let from_skip = !space_skip.is_zero();
+            let from_skip = !is_zero_glue(&space_skip);
             let mut g = if from_skip { space_skip } else { font_glue };
             if from_skip && dev.space_skip_not_modified {
                 return g;
             }
+            if from_skip && sf < 1000 {
+                m.modified_space_skip_small = true;
+            }
             if sf >= 2000 {
                 g.width = Scaled((g.width.0 as i64 + f.extra) as i32);
             }
-            g.stretch = Scaled(ta::xn_over_d(g.stretch.0 as i64, sf, 1000).map(|x| x.0).unwrap_or(0) as i32);
-            g.shrink = Scaled(ta::xn_over_d(g.shrink.0 as i64, 1000, sf).map(|x| x.0).unwrap_or(0) as i32);
+            if ta::xn_over_d(g.stretch.0 as i64, sf, 1000).is_none() || ta::xn_over_d(g.shrink.0 as i64, 1000, sf).is_none() {
+                m.overflow = true;
+            }
+            g.stretch = Scaled(tex_xn_over_d(g.stretch.0 as i64, sf, 1000) as i32);
+            g.shrink = Scaled(tex_xn_over_d(g.shrink.0 as i64, 1000, sf) as i32);
             g
         }
     };
     for (i, w) in c.words.iter().enumerate() {
         if i > 0 || c.leading_space {
-            out.push(space(sf));
+            let g = space(sf, &mut m);
+            m.glues.push(g);
         }
         for ch in w.chars() {
             let s = codes.0.get(ch as usize).copied().unwrap_or(1000) as i64;
@@ -190,7 +298,9 @@ fn model_spaces(c: &TextCase, f: &Font, dev: Deviations) -> Vec<Glue> {
             }
         }
     }
-    out
+    let mut scratch = SpaceModel::default();
+    m.trailing = Some(space(sf, &mut scratch));
+    m
 }
 
 fn discardable(h: &H) -> bool {
@@ -201,6 +311,30 @@ fn discardable(h: &H) -> bool {
     }
 }
 
+/// A line as TeX builds it.
+#[derive(Debug)]
+struct ELine {
+    list: Vec<H>,
+    /// positions of the glue items inserted by the line breaker (\leftskip, \rightskip, \parfillskip); only the
+    /// glue value of these is compared
+    inserted: Vec<usize>,
+    /// position of what TeX leaves of the item the line was broken at (the penalty, the kern with its width set to
+    /// zero, the emptied discretionary). The statement counts it as dropped, TeX keeps it: both are accepted.
+    remnant: Option<usize>,
+    /// number of items at the start of the line (after \leftskip) that are the post-break list of the
+    /// discretionary at which the line before was broken
+    post_len: usize,
+    width: Scaled,
+    /// None: neither the documentation nor TeX's \parshape says what the indent of this line is
+    shift: Option<Scaled>,
+}
+
+#[derive(Debug)]
+enum EItem {
+    Line(ELine),
+    Penalty(i32),
+}
+
 #[derive(Debug, PartialEq)]
 enum VItem {
     Line { list: Vec<H>, width: Scaled, shift: Scaled },
@@ -208,28 +342,38 @@ enum VItem {
 }
 
 /// TeX 877-890 with the pruning of 879.
-fn model_post_line_break(h: &[H], bps: &[usize], p: &kp::Params, widths: &[Scaled], indents: &[Scaled], dev: Deviations) -> Vec<VItem> {
+fn model_post_line_break(h: &[H], bps: &[usize], p: &kp::Params, widths: &[Scaled], indents: &[Scaled], dev: Deviations) -> Vec<EItem> {
     let mut out = vec![];
     let mut start = 0usize;
     let mut pending_post: Vec<ds::DiscretionaryElem> = vec![];
     let n = bps.len();
     for (li, &bp) in bps.iter().enumerate() {
         let mut line: Vec<H> = vec![];
-        if !p.left_skip.is_zero() {
+        let mut inserted = vec![];
+        let mut remnant = None;
+        if !is_zero_glue(&p.left_skip) {
+            inserted.push(line.len());
             line.push(H::Glue(ds::Glue { value: p.left_skip, kind: ds::GlueKind::Normal }));
         }
+        let post_len = pending_post.len();
         for e in pending_post.drain(..) {
             line.push(e.into());
         }
         let bp_c = bp.min(h.len());
         if start < bp_c {
+            let at = line.len();
             line.extend_from_slice(&h[start..bp_c]);
+            // the last item of the list that was broken is the \parfillskip glue
+            if li + 1 == n && bp_c == h.len() && matches!(h.last(), Some(H::Glue(_))) {
+                inserted.push(at + (bp_c - start) - 1);
+            }
         }
         let mut next_start = bp + 1;
         let mut disc_break = false;
         if let Some(node) = h.get(bp) {
             match node {
                 H::Discretionary(d) => {
+                    remnant = Some(line.len());
                     line.push(H::Discretionary(ds::Discretionary::default()));
                     for e in &d.pre_break {
                         line.push(e.clone().into());
@@ -241,12 +385,17 @@ fn model_post_line_break(h: &[H], bps: &[usize], p: &kp::Params, widths: &[Scale
                 H::Kern(k) => {
                     let mut k = k.clone();
                     k.width = Scaled::ZERO;
+                    remnant = Some(line.len());
                     line.push(H::Kern(k));
                 }
                 H::Glue(_) => {}
-                other => line.push(other.clone()),
+                other => {
+                    remnant = Some(line.len());
+                    line.push(other.clone())
+                }
             }
         }
+        inserted.push(line.len());
         line.push(H::Glue(ds::Glue { value: p.right_skip, kind: ds::GlueKind::Normal }));
         if li + 1 < n && pending_post.is_empty() && !dev.no_pruning {
             let limit = bps[li + 1].min(h.len());
@@ -255,9 +404,17 @@ fn model_post_line_break(h: &[H], bps: &[usize], p: &kp::Params, widths: &[Scale
             }
         }
         start = next_start;
+        // Lines beyond the sequences: the last width is repeated, as the last line of a \parshape is (TeX 847-850).
+        // The indent of such a line is determined if the indents pair up with the widths (again \parshape) or if
+        // there are none (no indentation was asked for); otherwise nothing says what it is.
         let width = *widths.get(li).unwrap_or(widths.last().unwrap());
-        let shift = indents.get(li).copied().unwrap_or(indents.last().copied().unwrap_or(Scaled::ZERO));
-        out.push(VItem::Line { list: line, width, shift });
+        let shift = match indents.get(li) {
+            Some(s) => Some(*s),
+            None if indents.is_empty() => Some(Scaled::ZERO),
+            None if indents.len() == widths.len() => indents.last().copied(),
+            None => None,
+        };
+        out.push(EItem::Line(ELine { list: line, inserted, remnant, post_len, width, shift }));
         if li + 1 != n {
             let mut pen = p.inter_line_penalty;
             if li == 0 {
@@ -270,55 +427,90 @@ fn model_post_line_break(h: &[H], bps: &[usize], p: &kp::Params, widths: &[Scale
                 pen += p.broken_penalty;
             }
             if pen != 0 {
-                out.push(VItem::Penalty(pen));
+                out.push(EItem::Penalty(pen));
             }
         }
     }
     out
 }
 
+/// Lines and penalties of a vertical list. Glue (\baselineskip, \parskip) and kerns between the lines, marks and
+/// insertions are not the property's business.
 fn observed_items(v: &[ds::Vertical]) -> Result<Vec<VItem>, String> {
     let mut out = vec![];
     for e in v {
         match e {
             ds::Vertical::HBox(b) => out.push(VItem::Line { list: b.list.clone(), width: b.width, shift: b.shift_amount }),
             ds::Vertical::Penalty(p) => out.push(VItem::Penalty(p.0)),
-            ds::Vertical::Glue(_) => {}
+            ds::Vertical::Glue(_) | ds::Vertical::Kern(_) | ds::Vertical::Mark(_) | ds::Vertical::Insertion(_) | ds::Vertical::Whatsit(_) => {}
             other => return Err(format!("unexpected item in the vertical list: {:?}", other)),
         }
     }
     Ok(out)
 }
 
+fn show_elems(l: &[ds::DiscretionaryElem]) -> String {
+    let v: Vec<H> = l.iter().map(|e| e.clone().into()).collect();
+    show_list(&v)
+}
+
 fn show_list(l: &[H]) -> String {
     let mut s = String::new();
     for h in l {
         match h {
-            H::Char(c) => s.push(c.char),
+            H::Char(c) if c.font == 0 => s.push(c.char),
+            H::Char(c) => s.push_str(&format!("{}/{}", c.char, c.font)),
             H::Ligature(l) => s.push_str(&format!("<{}={}>", l.char, l.original_chars.as_ref() as &str)),
             H::Glue(g) => s.push_str(&format!("[glue {}]", g.value)),
             H::Kern(k) => s.push_str(&format!("[kern {} {:?}]", k.width, k.kind)),
             H::Penalty(p) => s.push_str(&format!("[pen {}]", p.0)),
-            H::Discretionary(d) => s.push_str(&format!("[disc pre{} post{} r{}]", d.pre_break.len(), d.post_break.len(), d.replace_count)),
+            H::Discretionary(d) if d.pre_break.is_empty() && d.post_break.is_empty() => s.push_str(&format!("[disc r{}]", d.replace_count)),
+            H::Discretionary(d) => s.push_str(&format!("[disc pre{{{}}} post{{{}}} r{}]", show_elems(&d.pre_break), show_elems(&d.post_break), d.replace_count)),
+            H::Rule(r) => s.push_str(&format!("[rule {}]", r.width)),
+            H::HBox(b) => s.push_str(&format!("[hbox {} {{{}}}]", b.width, show_list(&b.list))),
             other => s.push_str(&format!("[{:?}]", other)),
         }
     }
     s
 }
 
-fn compare_vlists(expected: &[VItem], got: &[VItem]) -> Result<(), String> {
+/// `want` (without the item at `skip`) against `got`; of the inserted skips only the glue value counts.
+fn same_list(want: &[H], inserted: &[usize], skip: Option<usize>, got: &[H]) -> bool {
+    let n = want.len() - if skip.is_some() { 1 } else { 0 };
+    if got.len() != n {
+        return false;
+    }
+    let mut j = 0;
+    for (i, w) in want.iter().enumerate() {
+        if Some(i) == skip {
+            continue;
+        }
+        let g = &got[j];
+        j += 1;
+        let same = match (w, g) {
+            (H::Glue(a), H::Glue(b)) if inserted.contains(&i) => a.value == b.value,
+            _ => w == g,
+        };
+        if !same {
+            return false;
+        }
+    }
+    true
+}
+
+fn compare_vlists(expected: &[EItem], got: &[VItem]) -> Result<(), String> {
     for (i, (e, g)) in expected.iter().zip(got.iter()).enumerate() {
-        if e != g {
-            return Err(match (e, g) {
-                (VItem::Line { list: le, width: we, shift: se }, VItem::Line { list: lg, width: wg, shift: sg }) => {
-                    if we != wg || se != sg {
-                        format!("item {i}: line box has width {} shift {}, expected width {} shift {}", wg, sg, we, se)
-                    } else {
-                        format!("item {i}: line contents differ\n  expected: {}\n  got:      {}", show_list(le), show_list(lg))
-                    }
+        match (e, g) {
+            (EItem::Line(e), VItem::Line { list, width, shift }) => {
+                if e.width != *width || e.shift.map(|s| s != *shift).unwrap_or(false) {
+                    return Err(format!("item {i}: line box has width {} shift {}, expected width {} shift {}", width, shift, e.width, e.shift.unwrap_or(*shift)));
                 }
-                _ => format!("item {i}: expected {:?}, got {:?}", short(e), short(g)),
-            });
+                if !same_list(&e.list, &e.inserted, None, list) && !(e.remnant.is_some() && same_list(&e.list, &e.inserted, e.remnant, list)) {
+                    return Err(format!("item {i}: line contents differ\n  expected: {}\n  got:      {}", show_list(&e.list), show_list(list)));
+                }
+            }
+            (EItem::Penalty(a), VItem::Penalty(b)) if a == b => {}
+            _ => return Err(format!("item {i}: expected {}, got {}", short_e(e), short(g))),
         }
     }
     if expected.len() != got.len() {
@@ -334,19 +526,95 @@ fn short(v: &VItem) -> String {
     }
 }
 
+fn short_e(v: &EItem) -> String {
+    match v {
+        EItem::Line(l) => format!("line {}", show_list(&l.list)),
+        EItem::Penalty(p) => format!("penalty {}", p),
+    }
+}
+
+#[derive(Default)]
+struct BreakStats {
+    lines: usize,
+    disc_break: bool,
+    run2: bool,
+    known: Option<String>,
+    disc_post: bool,
+    disc_replace: bool,
+    disc_then_discardable: bool,
+    kern_break: bool,
+    penalty_break: bool,
+    beyond_widths: bool,
+    indent_undetermined: bool,
+    more_indents_than_widths: bool,
+    list_as_prepared: bool,
+    pre_vlist: bool,
+    empty_last_line: bool,
+}
+
+impl BreakStats {
+    fn classes(&self, case: &mut Case) {
+        case.class_if(self.lines >= 3, "lines>=3");
+        case.class_if(self.lines == 2, "lines=2 (club and widow penalty on one break)");
+        case.class_if(self.lines == 1, "lines=1");
+        case.class_if(self.disc_break, "break at a discretionary");
+        case.class_if(self.run2, "discardable run>=2 at a break");
+        case.class_if(self.disc_post, "break at a discretionary with post-break material");
+        case.class_if(self.disc_replace, "break at a discretionary that replaces nodes");
+        case.class_if(self.disc_then_discardable, "break at a discretionary followed by discardables");
+        case.class_if(self.kern_break, "break at a kern");
+        case.class_if(self.penalty_break, "break at a penalty");
+        case.class_if(self.beyond_widths, "more lines than widths");
+        case.class_if(self.indent_undetermined, "line whose indent is not determined (not compared)");
+        case.class_if(self.more_indents_than_widths, "more indents than widths");
+        case.class_if(!self.list_as_prepared, "break_line leaves another list than the prepared one");
+        case.class_if(self.pre_vlist, "appended to a non-empty vertical list");
+        case.class_if(self.empty_last_line, "last line holds only the skips");
+    }
+}
+
+/// What the vertical list holds before the paragraph is appended.
+fn pre_vlist(kind: u8, params: &kp::Params, widths: &[Scaled], indents: &[Scaled], font_repo: &boxworks_text::TfmFontRepo) -> Vec<ds::Vertical> {
+    let ch = |c: char| H::Char(ds::Char { char: c, font: 0 });
+    match kind % 4 {
+        0 => vec![],
+        1 => vec![ds::Vertical::Penalty(ds::Penalty(12345))],
+        2 => {
+            let b = ds::HBox::pack(font_repo, vec![ch('g'), ch('y')], ds::PackWidth::Additional(Scaled::ZERO));
+            vec![ds::Vertical::HBox(b), ds::Vertical::Penalty(ds::Penalty(-3)), ds::Vertical::Glue(ds::Glue { value: Glue { width: Scaled(65536), ..Glue::ZERO }, kind: ds::GlueKind::Normal }), ds::Vertical::Kern(ds::Kern { width: Scaled(131072), kind: ds::KernKind::Explicit })]
+        }
+        _ => {
+            let g = H::Glue(ds::Glue { value: Glue { width: Scaled(3 * 65536), stretch: Scaled(65536), ..Glue::ZERO }, kind: ds::GlueKind::Normal });
+            let mut h = vec![ch('p'), ch('q'), g.clone(), ch('g'), ch('y'), H::Penalty(ds::Penalty(-10000)), ch('j'), g, ch('b')];
+            let mut v = vec![];
+            kp::LineBreaker { params, line_widths: widths, line_indents: indents, debug_logger: None, hyphenator: &NoHyphenation }.break_line(font_repo, &mut v, &mut h);
+            v
+        }
+    }
+}
+
 /// Break `h0` (a paragraph's horizontal list before TeX 816) and compare with the model.
-/// Returns (number of lines, a break at a discretionary happened, a discardable run of length >= 2 stood at a break).
-fn check_breaking(h0: &[H], bp: &BreakParams, hyphenator: &dyn boxworks::Hyphenator, f: &Font, dev_known: &[(&'static str, Deviations)]) -> Result<(usize, bool, bool, Option<&'static str>), String> {
+fn check_breaking(ctx: &Ctx, h0: &[H], bp: &BreakParams, hyphenator: &dyn boxworks::Hyphenator, fonts: &[&Font], dev_known: &[(&'static str, Deviations)]) -> Result<BreakStats, Verdict> {
     let params = bp.to_params();
     let widths: Vec<Scaled> = bp.widths.iter().map(|w| Scaled(*w)).collect();
     let indents: Vec<Scaled> = bp.indents.iter().map(|w| Scaled(*w)).collect();
     let mut font_repo = boxworks_text::TfmFontRepo::default();
-    font_repo.register_font(0, f.tfm.clone());
-    // the real thing
-    let mut vlist: Vec<ds::Vertical> = vec![];
+    for (id, f) in fonts.iter().enumerate() {
+        font_repo.register_font(id as u32, f.tfm.clone());
+    }
+    let panicked = |what: &str, info: panics::PanicInfo| -> Verdict {
+        if ctx.known(&info.signature()) {
+            Verdict::Known(info.signature())
+        } else {
+            Verdict::Fail(format!("{} panicked at {}: {}\n  list: {}", what, info.site(), info.message, show_list(h0)))
+        }
+    };
+    // the real thing, appended to what the vertical list holds already
+    let prefix = panics::catch(|| pre_vlist(bp.pre_vlist, &params, &widths, &indents, &font_repo)).map_err(|i| panicked("break_line (of the paragraph set before)", i))?;
+    let mut vlist: Vec<ds::Vertical> = prefix.clone();
     let mut h_list: Vec<H> = h0.to_vec();
-    kp::LineBreaker { params: &params, line_widths: &widths, line_indents: &indents, debug_logger: None, hyphenator }.break_line(&font_repo, &mut vlist, &mut h_list);
-    // recompute the breakpoints on a clone prepared as TeX 816 prepares it
+    panics::catch(|| kp::LineBreaker { params: &params, line_widths: &widths, line_indents: &indents, debug_logger: None, hyphenator }.break_line(&font_repo, &mut vlist, &mut h_list)).map_err(|i| panicked("break_line", i))?;
+    // the list that is broken, prepared as TeX 816 prepares it, and its breakpoints
     let mut clone: Vec<H> = h0.to_vec();
     if matches!(clone.last(), Some(H::Glue(_))) {
         clone.pop();
@@ -354,94 +622,178 @@ fn check_breaking(h0: &[H], bp: &BreakParams, hyphenator: &dyn boxworks::Hyphena
     clone.push(H::Penalty(ds::Penalty::INFINITE));
     clone.push(H::Glue(ds::Glue { kind: ds::GlueKind::Normal, value: params.par_fill_skip }));
     let mut dummy: Vec<ds::Vertical> = vec![];
-    let bps = kp::LineBreaker { params: &params, line_widths: &widths, line_indents: &indents, debug_logger: None, hyphenator }.break_line_all_attempts(&font_repo, hyphenator, &mut dummy, &mut clone);
-    if clone != h_list {
-        return Err(format!("the list left behind by break_line differs from the prepared (and possibly hyphenated) list\n  break_line: {}\n  prepared:   {}", show_list(&h_list), show_list(&clone)));
-    }
+    let bps = panics::catch(|| kp::LineBreaker { params: &params, line_widths: &widths, line_indents: &indents, debug_logger: None, hyphenator }.break_line_all_attempts(&font_repo, hyphenator, &mut dummy, &mut clone)).map_err(|i| panicked("break_line_all_attempts", i))?;
+    let fail = |m: String| Verdict::Fail(m);
+    // What break_line leaves in the caller's list is nobody's promise (TeX consumes the list); `clone`, now
+    // hyphenated if a second pass ran, is the list that was broken.
+    let mut st = BreakStats { list_as_prepared: clone == h_list, pre_vlist: !prefix.is_empty(), ..Default::default() };
+    let h_list = clone;
     let n = h_list.len();
-    if n < 2 || h_list[n - 2] != H::Penalty(ds::Penalty::INFINITE) || !matches!(&h_list[n - 1], H::Glue(g) if g.value == params.par_fill_skip) {
-        return Err(format!("the broken list does not end with \\penalty10000 \\parfillskip: {}", show_list(&h_list)));
-    }
-    // breakpoints are strictly increasing, the last one is the end of the list
+    // breakpoints are strictly increasing, the last one is the end of the list: the paragraph has at least one line
+    // and nothing behind the last break is left over
     for w in bps.windows(2) {
         if w[0] >= w[1] {
-            return Err(format!("breakpoints are not increasing: {:?}", bps));
+            return Err(fail(format!("breakpoints are not increasing: {:?}", bps)));
         }
     }
-    let got = observed_items(&vlist)?;
-    let disc_break = bps.iter().any(|b| matches!(h_list.get(*b), Some(H::Discretionary(_))));
-    let mut run2 = false;
-    for b in &bps {
-        if let Some(node) = h_list.get(*b) {
-            if discardable(node) && h_list.get(*b + 1).map(discardable).unwrap_or(false) && *b + 2 < n {
-                run2 = true;
+    if bps.last() != Some(&n) {
+        return Err(fail(format!("the last breakpoint is not the end of the list ({} items): {:?}\n  list: {}", n, bps, show_list(&h_list))));
+    }
+    // what the vertical list held before is still there
+    if vlist.len() < prefix.len() || vlist[..prefix.len()] != prefix[..] {
+        return Err(fail(format!("the items that the vertical list held before the paragraph was appended have changed\n  before: {:?}\n  after: {:?}", prefix, &vlist[..prefix.len().min(vlist.len())])));
+    }
+    let got = observed_items(&vlist[prefix.len()..]).map_err(fail)?;
+    st.lines = bps.len();
+    for (i, b) in bps.iter().enumerate() {
+        let Some(node) = h_list.get(*b) else { continue };
+        let after = |k: usize| h_list.get(*b + k).map(discardable).unwrap_or(false) && *b + k + 1 < n;
+        match node {
+            H::Discretionary(d) => {
+                st.disc_break = true;
+                st.disc_post |= !d.post_break.is_empty();
+                st.disc_replace |= d.replace_count > 0;
+                let next = *b + 1 + d.replace_count as usize;
+                st.disc_then_discardable |= d.post_break.is_empty() && after(1 + d.replace_count as usize) && bps.get(i + 1).map(|nb| *nb > next).unwrap_or(false);
             }
+            H::Kern(_) => st.kern_break = true,
+            H::Penalty(_) => st.penalty_break = true,
+            _ => {}
+        }
+        if discardable(node) && after(1) {
+            st.run2 = true;
         }
     }
+    st.beyond_widths = bps.len() > widths.len();
+    st.more_indents_than_widths = indents.len() > widths.len();
     let expected = model_post_line_break(&h_list, &bps, &params, &widths, &indents, Deviations::default());
+    st.indent_undetermined = expected.iter().any(|e| matches!(e, EItem::Line(l) if l.shift.is_none()));
+    st.empty_last_line = matches!(expected.last(), Some(EItem::Line(l)) if l.list.len() == 1 + if is_zero_glue(&params.left_skip) { 0 } else { 1 });
     match compare_vlists(&expected, &got) {
         Ok(()) => {}
         Err(e) => {
             for (name, dev) in dev_known {
                 let e2 = model_post_line_break(&h_list, &bps, &params, &widths, &indents, *dev);
                 if compare_vlists(&e2, &got).is_ok() {
-                    return Ok((bps.len(), disc_break, run2, Some(name)));
+                    st.known = Some(name.to_string());
+                    return Ok(st);
                 }
             }
-            return Err(format!("{}\n  list: {}\n  breakpoints: {:?}", e, show_list(&h_list), bps));
+            return Err(fail(format!("{}\n  list: {}\n  breakpoints: {:?}", e, show_list(&h_list), bps)));
         }
     }
-    // no line but the first begins with discardable material
-    let mut first = true;
-    for it in &got {
-        if let VItem::Line { list, .. } = it {
-            if !first {
-                let mut k = 0;
-                if !params.left_skip.is_zero() {
-                    k = 1;
-                }
-                if let Some(x) = list.get(k) {
-                    // an otherwise empty line holds just the item it was broken at (e.g. the second of
-                    // two forced breaks in a row) and the right skip: that is TeX's output too
-                    if discardable(x) && k + 2 < list.len() {
-                        return Err(format!("a line begins with discardable material: {}", show_list(list)));
-                    }
-                }
+    // no line but the first begins with discardable material (the pre-break and post-break lists of a
+    // discretionary are not discardable whatever they hold: TeX 877, 882 prune nothing behind a post-break list)
+    let got_lines = got.iter().filter_map(|it| if let VItem::Line { list, .. } = it { Some(list) } else { None });
+    let want_lines = expected.iter().filter_map(|it| if let EItem::Line(l) = it { Some(l) } else { None });
+    for (li, (list, want)) in got_lines.zip(want_lines).enumerate() {
+        if li == 0 || want.post_len > 0 {
+            continue;
+        }
+        let k = if is_zero_glue(&params.left_skip) { 0 } else { 1 };
+        // a line that holds nothing before its own break item begins with the remnant of that item or, where the
+        // remnant is dropped, with the pre-break list
+        if want.remnant == Some(k) {
+            continue;
+        }
+        if let Some(x) = list.get(k) {
+            // an otherwise empty line holds just the item it was broken at (e.g. the second of
+            // two forced breaks in a row) and the right skip: that is TeX's output too
+            if discardable(x) && k + 2 < list.len() {
+                return Err(fail(format!("a line begins with discardable material: {}", show_list(list))));
             }
-            first = false;
         }
     }
-    Ok((bps.len(), disc_break, run2, None))
+    Ok(st)
 }
 
 fn text_oracle(ctx: &Ctx, c: &TextCase, case: &mut Case) -> Verdict {
-    FONT.with(|f| {
-        let text = format!("{}{}", if c.leading_space { " " } else { "" }, c.words.join(" "));
-        case.note = Some(format!("text={:?} widths={:?} spaceskip={:?} xspaceskip={:?} sf_table={} hyphenate={}", text, c.bp.widths, c.space_skip, c.xspace_skip, c.sf_table, c.hyphenate));
+    FONTS.with(|fs| {
+        let text = c.text();
+        let (plan, active) = font_plan(c.font_setup);
+        let fonts: Vec<&Font> = plan.iter().map(|i| &fs[*i]).collect();
+        let f = fonts[active as usize];
+        case.note = Some(format!("text={:?} primer={:?} fonts={:?} active={} widths={:?} spaceskip={:?} xspaceskip={:?} sf_table={} hyphenate={}", text, c.primer, plan, active, c.bp.widths, c.space_skip, c.xspace_skip, c.sf_table, c.hyphenate));
         let params = boxworks_text::Params {
             space_factor_codes: sf_codes(c),
             space_skip: c.space_skip.as_ref().map(|g| g.to_glue()).unwrap_or(Glue::ZERO),
             extra_space_skip: c.xspace_skip.as_ref().map(|g| g.to_glue()).unwrap_or(Glue::ZERO),
         };
         let mut tp = boxworks_text::TextPreprocessorImpl::new(params);
-        tp.register_font(0, &f.tfm, f.program.clone());
-        tp.activate_font(0);
+        for (id, f) in fonts.iter().enumerate() {
+            tp.register_font(id as u32, &f.tfm, f.program.clone());
+        }
+        tp.activate_font(active);
         let mut h0: Vec<H> = vec![];
-        tp.add_text(&text, &mut h0);
+        let r = panics::catch(|| {
+            // one preprocessor serves all the paragraphs of a document (boxworks-bin): every paragraph starts
+            // with the space factor 1000 whatever the one before ended with (TeX 1091: push_nest; space_factor:=1000)
+            if let Some(p) = &c.primer {
+                let mut scratch: Vec<H> = vec![];
+                tp.add_text(p, &mut scratch);
+            }
+            tp.add_text(&text, &mut h0);
+        });
+        if let Err(info) = r {
+            if ctx.known(&info.signature()) {
+                return Verdict::Known(info.signature());
+            }
+            return Verdict::Fail(format!("add_text panicked at {}: {}\n  text: {:?} primer={:?} spaceskip={:?} xspaceskip={:?} sf_table={} custom_sf={:?}", info.site(), info.message, text, c.primer, c.space_skip, c.xspace_skip, c.sf_table, c.custom_sf));
+        }
         // (1) the list spells the words
         let mut segs: Vec<String> = vec![String::new()];
         let mut glues: Vec<Glue> = vec![];
+        let mut hyphen_last = false; // the node before is a character or ligature that ends with a hyphen
+        let mut discs = 0;
         for h in &h0 {
+            let mut hyphen = false;
             match h {
-                H::Char(ch) => segs.last_mut().unwrap().push(ch.char),
-                H::Ligature(l) => segs.last_mut().unwrap().push_str(l.original_chars.as_ref()),
+                H::Char(ch) => {
+                    if ch.font != active {
+                        return Verdict::Fail(format!("character {:?} is set in font {}, the active font is {}\n  text: {:?}", ch.char, ch.font, active, text));
+                    }
+                    segs.last_mut().unwrap().push(ch.char);
+                    hyphen = ch.char == '-';
+                }
+                H::Ligature(l) => {
+                    if l.font != active {
+                        return Verdict::Fail(format!("ligature {:?} is set in font {}, the active font is {}\n  text: {:?}", l.char, l.font, active, text));
+                    }
+                    segs.last_mut().unwrap().push_str(l.original_chars.as_ref());
+                    hyphen = l.original_chars.ends_with('-');
+                }
                 H::Glue(g) => {
                     glues.push(g.value);
                     segs.push(String::new());
                 }
-                H::Kern(_) | H::Discretionary(_) => {}
+                // TeX 1040: a font kern is a normal kern (an explicit one would be a breakpoint and discardable)
+                H::Kern(k) => {
+                    if k.kind != ds::KernKind::Normal {
+                        return Verdict::Fail(format!("the text preprocessor made a kern of kind {:?}; TeX's font kerns are normal kerns\n  text: {:?}\n  list: {}", k.kind, text, show_list(&h0)));
+                    }
+                }
+                // TeX 1035, 1039: the only discretionary made from characters is the empty one after the hyphen
+                // character; one that holds material would print it a second time when the break is taken
+                H::Discretionary(d) => {
+                    if *d != ds::Discretionary::default() {
+                        return Verdict::Fail(format!("the text preprocessor made a discretionary that is not empty: material would be duplicated or lost at a break\n  text: {:?}\n  list: {}", text, show_list(&h0)));
+                    }
+                    if !hyphen_last {
+                        return Verdict::Fail(format!("the text preprocessor made a discretionary that does not follow a hyphen\n  text: {:?}\n  list: {}", text, show_list(&h0)));
+                    }
+                    discs += 1;
+                }
                 other => return Verdict::Fail(format!("unexpected node from the text preprocessor: {:?}", other)),
             }
+            hyphen_last = hyphen;
+        }
+        let model = model_spaces(c, f, Deviations::default());
+        let has_trailing_blank = c.trail > 0 || (c.words.is_empty() && c.leading_space);
+        // A run of blanks at the end of the text: TeX appends a glue that the end of the paragraph removes again
+        // (TeX 816); with or without it the paragraph is the same.
+        let trailing_glue = has_trailing_blank && segs.len() >= 2 && segs.last().map(|s| s.is_empty()).unwrap_or(false) && glues.len() == model.glues.len() + 1;
+        if trailing_glue {
+            segs.pop();
         }
         let mut want_segs: Vec<String> = c.words.clone();
         if c.leading_space {
@@ -454,21 +806,61 @@ fn text_oracle(ctx: &Ctx, c: &TextCase, case: &mut Case) -> Verdict {
             return Verdict::Fail(format!("the horizontal list does not spell the input words\n  text: {:?}\n  list: {}\n  spelled: {:?}", text, show_list(&h0), segs));
         }
         // (2) inter-word glue follows the space-factor rules
-        let want_glue = model_spaces(c, f, Deviations::default());
+        let mut want_glue = model.glues.clone();
+        if trailing_glue {
+            want_glue.extend(model.trailing);
+        }
         let mut known: Option<&'static str> = None;
         if glues != want_glue {
             let d = Deviations { space_skip_not_modified: true, ..Default::default() };
-            if ctx.known("flag:space_skip_not_modified") && glues == model_spaces(c, f, d) {
+            let mut dev_glue = model_spaces(c, f, d).glues;
+            if trailing_glue {
+                dev_glue.extend(model.trailing);
+            }
+            if ctx.known("flag:space_skip_not_modified") && glues == dev_glue {
                 known = Some("flag:space_skip_not_modified");
             } else {
                 let i = glues.iter().zip(want_glue.iter()).position(|(a, b)| a != b).unwrap_or(0);
-                return Verdict::Fail(format!("inter-word glue #{} is {}, TeX's space-factor rules give {}\n  text: {:?} spaceskip={:?} xspaceskip={:?}", i, glues.get(i).map(|g| g.to_string()).unwrap_or_default(), want_glue.get(i).map(|g| g.to_string()).unwrap_or_default(), text, c.space_skip, c.xspace_skip));
+                return Verdict::Fail(format!(
+                    "inter-word glue #{} is {}, TeX's space-factor rules give {}\n  text: {:?} primer={:?} font: {}sp plus {}sp minus {}sp, extra space {}sp spaceskip={:?} xspaceskip={:?} sf_table={} custom_sf={:?}",
+                    i,
+                    glues.get(i).map(|g| g.to_string()).unwrap_or_default(),
+                    want_glue.get(i).map(|g| g.to_string()).unwrap_or_default(),
+                    text,
+                    c.primer,
+                    f.space,
+                    f.stretch,
+                    f.shrink,
+                    f.extra,
+                    c.space_skip,
+                    c.xspace_skip,
+                    c.sf_table,
+                    c.custom_sf
+                ));
             }
         }
         let sf_nontrivial = glues.iter().any(|g| *g != glues[0]);
         case.class_if(sf_nontrivial, "space factor changes a glue");
         case.class_if(c.space_skip.is_some(), "spaceskip set");
         case.class_if(c.xspace_skip.is_some(), "xspaceskip set");
+        case.class_if(model.used_xspace, "glue taken from xspaceskip (sf>=2000)");
+        case.class_if(model.modified_space_skip_small, "spaceskip modified by sf<1000");
+        case.class_if(model.overflow, "TeX 1044 overflows (arith_error ignored)");
+        let shape = |g: &Option<GlueSpec>| g.as_ref().map(|g| (g.width == 0 && (g.stretch != 0 || g.shrink != 0), g.width < 0 || g.stretch < 0 || g.shrink < 0, g.width == 0 && g.stretch == 0 && g.shrink == 0)).unwrap_or((false, false, false));
+        let (s1, s2) = (shape(&c.space_skip), shape(&c.xspace_skip));
+        case.class_if(s1.0 || s2.0, "skip with zero width but stretch or shrink");
+        case.class_if(s1.1 || s2.1, "skip with a negative component");
+        case.class_if(s1.2 || s2.2, "skip given but zero (possibly with an infinite order)");
+        case.class_if(c.leading_space && !c.words.is_empty(), "leading blanks");
+        case.class_if(text.contains("  ") || text.contains('\t') || text.contains('\n'), "runs of blanks, tabs, ends of line");
+        case.class_if(has_trailing_blank, "trailing blanks");
+        case.class_if(trailing_glue, "trailing blanks gave a glue");
+        case.class_if(c.primer.is_some(), "preprocessor reused (primer paragraph)");
+        case.class_if(c.primer.is_some() && c.leading_space && !c.words.is_empty(), "preprocessor reused, paragraph starts with a glue");
+        case.class_if(plan.len() > 1, "two fonts registered");
+        case.class_if(active != 0, "active font id 1");
+        case.class_if(plan[active as usize] == 1, "text set in the second font");
+        case.class_if(discs > 0, "explicit hyphen with discretionary");
         if c.words.is_empty() {
             return Verdict::pass(false);
         }
@@ -478,23 +870,35 @@ fn text_oracle(ctx: &Ctx, c: &TextCase, case: &mut Case) -> Verdict {
             devs.push(("flag:no_pruning_after_break", Deviations { no_pruning: true, ..Default::default() }));
         }
         let hy = boxworks_hyphenate::Hyphenator::plain_tex_en_us(f.program.clone());
-        let r = if c.hyphenate { check_breaking(&h0, &c.bp, &hy, f, &devs) } else { check_breaking(&h0, &c.bp, &NoHyphenation, f, &devs) };
+        let r = if c.hyphenate { check_breaking(ctx, &h0, &c.bp, &hy, &fonts, &devs) } else { check_breaking(ctx, &h0, &c.bp, &NoHyphenation, &fonts, &devs) };
         match r {
-            Ok((lines, disc, run2, k)) => {
-                case.class_if(lines >= 3, "lines>=3");
-                case.class_if(disc, "break at a discretionary");
-                case.class_if(run2, "discardable run>=2 at a break");
-                if let Some(k) = k.or(known) {
-                    return Verdict::Known(k.to_string());
+            Ok(st) => {
+                st.classes(case);
+                if let Some(k) = st.known.clone().or(known.map(|k| k.to_string())) {
+                    return Verdict::Known(k);
                 }
-                Verdict::pass(lines >= 3 && (disc || run2 || sf_nontrivial))
+                Verdict::pass(st.lines >= 3 && (st.disc_break || st.run2 || sf_nontrivial))
             }
-            Err(e) => Verdict::Fail(format!("{}\n  text: {:?}", e, text)),
+            Err(Verdict::Fail(e)) => Verdict::Fail(format!("{}\n  text: {:?}", e, text)),
+            Err(v) => v,
         }
     })
 }
 
 // ---- hand-built lists
+
+/// Element of a pre-break or post-break list.
+#[derive(Clone, Debug, Serialize, Deserialize)]
+pub enum DElem {
+    /// character, font id
+    Char(char, u8),
+    /// width, kind (0 normal, 1 explicit, 2 accent, 3 math)
+    Kern(i32, u8),
+    /// width
+    Rule(i32),
+    /// ligature character, original characters
+    Lig(char, String),
+}
 
 #[derive(Clone, Debug, Serialize, Deserialize)]
 pub enum Item {
@@ -504,6 +908,26 @@ pub enum Item {
     Kern(i32, bool),
     /// pre-break, post-break, replace count
     Disc(String, String, u8),
+    /// width, kind (0 normal, 1 explicit, 2 accent, 3 math)
+    KernK(i32, u8),
+    /// width, height, depth
+    Rule(i32, i32, i32),
+    /// an hbox of natural width around these characters
+    Box(String),
+    /// a word in font id 1
+    Word1(String),
+    /// ligature character, original characters
+    Lig(char, String),
+    /// pre-break, post-break, replace count; the count covers characters, ligatures, kerns of every kind, rules, boxes
+    DiscX(Vec<DElem>, Vec<DElem>, u8),
+}
+
+fn kern_kind(k: u8) -> ds::KernKind {
+    [ds::KernKind::Normal, ds::KernKind::Explicit, ds::KernKind::Accent, ds::KernKind::Math][k as usize % 4]
+}
+
+fn lig(c: char, orig: &str, font: u32) -> ds::Ligature {
+    ds::Ligature { char: c, font, original_chars: orig.into(), includes_left_boundary: false, includes_right_boundary: false }
 }
 
 #[derive(Clone, Debug, Serialize, Deserialize)]
@@ -513,9 +937,19 @@ pub struct ListCase {
 }
 
 fn list_oracle(ctx: &Ctx, c: &ListCase, case: &mut Case) -> Verdict {
-    FONT.with(|f| {
+    FONTS.with(|fs| {
+        let fonts: Vec<&Font> = vec![&fs[0], &fs[1]];
+        let mut font_repo = boxworks_text::TfmFontRepo::default();
+        for (id, f) in fonts.iter().enumerate() {
+            font_repo.register_font(id as u32, f.tfm.clone());
+        }
         let ch = |c: char| ds::Char { char: c, font: 0 };
         let mut h0: Vec<H> = vec![];
+        // (node, requested replace count of the discretionary there, whether it may cover every kind of node that a
+        // replace list can hold (TeX 1121) or, as in the first version of this check, characters and normal kerns only)
+        let mut wants: Vec<(usize, u8, bool)> = vec![];
+        let mut kinds = [false; 4];
+        let (mut rule_or_box, mut font1, mut rich_disc, mut lig_item) = (false, false, false, false);
         for it in &c.items {
             match it {
                 Item::Word(w) => {
@@ -523,24 +957,63 @@ fn list_oracle(ctx: &Ctx, c: &ListCase, case: &mut Case) -> Verdict {
                         h0.push(H::Char(ch(x)));
                     }
                 }
+                Item::Word1(w) => {
+                    font1 = true;
+                    for x in w.chars() {
+                        h0.push(H::Char(ds::Char { char: x, font: 1 }));
+                    }
+                }
+                Item::Lig(l, orig) => {
+                    lig_item = true;
+                    h0.push(H::Ligature(lig(*l, orig, 0)))
+                }
                 Item::Glue(g) => h0.push(H::Glue(ds::Glue { value: g.to_glue(), kind: ds::GlueKind::Normal })),
                 Item::Penalty(p) => h0.push(H::Penalty(ds::Penalty(*p))),
                 Item::Kern(w, explicit) => h0.push(H::Kern(ds::Kern { width: Scaled(*w), kind: if *explicit { ds::KernKind::Explicit } else { ds::KernKind::Normal } })),
+                Item::KernK(w, k) => {
+                    kinds[*k as usize % 4] = true;
+                    h0.push(H::Kern(ds::Kern { width: Scaled(*w), kind: kern_kind(*k) }))
+                }
+                Item::Rule(w, h, d) => {
+                    rule_or_box = true;
+                    h0.push(H::Rule(ds::Rule { width: Scaled(*w), height: Scaled(*h), depth: Scaled(*d) }))
+                }
+                Item::Box(w) => {
+                    rule_or_box = true;
+                    h0.push(H::HBox(ds::HBox::pack(&font_repo, w.chars().map(|x| H::Char(ch(x))).collect(), ds::PackWidth::Additional(Scaled::ZERO))))
+                }
                 Item::Disc(pre, post, r) => {
                     let d = ds::Discretionary { pre_break: pre.chars().map(|x| ch(x).into()).collect(), post_break: post.chars().map(|x| ch(x).into()).collect(), replace_count: 0 };
+                    wants.push((h0.len(), *r % 3, false));
                     h0.push(H::Discretionary(d));
-                    let _ = r;
+                }
+                Item::DiscX(pre, post, r) => {
+                    rich_disc |= pre.iter().chain(post.iter()).any(|e| !matches!(e, DElem::Char(..)));
+                    let conv = |l: &Vec<DElem>| -> Vec<ds::DiscretionaryElem> {
+                        l.iter()
+                            .map(|e| match e {
+                                DElem::Char(x, f) => ds::DiscretionaryElem::Char(ds::Char { char: *x, font: (*f % 2) as u32 }),
+                                DElem::Kern(w, k) => ds::DiscretionaryElem::Kern(ds::Kern { width: Scaled(*w), kind: kern_kind(*k) }),
+                                DElem::Rule(w) => ds::DiscretionaryElem::Rule(ds::Rule { width: Scaled(*w), height: Scaled(65536), depth: Scaled::ZERO }),
+                                DElem::Lig(l, orig) => ds::DiscretionaryElem::Ligature(lig(*l, orig, 0)),
+                            })
+                            .collect()
+                    };
+                    wants.push((h0.len(), *r % 4, true));
+                    h0.push(H::Discretionary(ds::Discretionary { pre_break: conv(pre), post_break: conv(post), replace_count: 0 }));
                 }
             }
         }
-        // replace counts: cover following characters / kerns only
-        for i in 0..h0.len() {
-            let want = match (&c.items_replace(i), &h0[i]) {
-                (Some(r), H::Discretionary(_)) => *r,
-                _ => continue,
-            };
+        // replace counts cover following non-discardable material only
+        for (i, want, wide) in wants {
             let mut k = 0u32;
-            while k < want as u32 && matches!(h0.get(i + 1 + k as usize), Some(H::Char(_)) | Some(H::Kern(ds::Kern { kind: ds::KernKind::Normal, .. }))) {
+            while k < want as u32
+                && match h0.get(i + 1 + k as usize) {
+                    Some(H::Char(_)) | Some(H::Kern(ds::Kern { kind: ds::KernKind::Normal, .. })) => true,
+                    Some(H::Kern(_)) | Some(H::Ligature(_)) | Some(H::Rule(_)) | Some(H::HBox(_)) => wide,
+                    _ => false,
+                }
+            {
                 k += 1;
             }
             if let H::Discretionary(d) = &mut h0[i] {
@@ -552,39 +1025,24 @@ fn list_oracle(ctx: &Ctx, c: &ListCase, case: &mut Case) -> Verdict {
         if ctx.known("flag:no_pruning_after_break") {
             devs.push(("flag:no_pruning_after_break", Deviations { no_pruning: true, ..Default::default() }));
         }
-        match check_breaking(&h0, &c.bp, &NoHyphenation, f, &devs) {
-            Ok((lines, disc, run2, k)) => {
-                case.class_if(lines >= 3, "lines>=3");
-                case.class_if(disc, "break at a discretionary");
-                case.class_if(run2, "discardable run>=2 at a break");
-                if let Some(k) = k {
-                    return Verdict::Known(k.to_string());
+        match check_breaking(ctx, &h0, &c.bp, &NoHyphenation, &fonts, &devs) {
+            Ok(st) => {
+                st.classes(case);
+                case.class_if(kinds[0] || kinds[1], "kern item normal/explicit (new form)");
+                case.class_if(kinds[2], "accent kern");
+                case.class_if(kinds[3], "math kern");
+                case.class_if(rule_or_box, "rule or box item");
+                case.class_if(font1, "characters of font 1");
+                case.class_if(lig_item, "ligature item");
+                case.class_if(rich_disc, "discretionary with kerns, rules, ligatures");
+                if let Some(k) = st.known {
+                    return Verdict::Known(k);
                 }
-                Verdict::pass(lines >= 3 && (disc || run2))
+                Verdict::pass(st.lines >= 3 && (st.disc_break || st.run2))
             }
-            Err(e) => Verdict::Fail(e),
+            Err(v) => v,
         }
     })
-}
-
-impl ListCase {
-    /// requested replace count of the discretionary that became node `i` of the flattened list
-    fn items_replace(&self, node_index: usize) -> Option<u8> {
-        let mut i = 0usize;
-        for it in &self.items {
-            match it {
-                Item::Word(w) => i += w.chars().count(),
-                Item::Disc(_, _, r) => {
-                    if i == node_index {
-                        return Some(*r % 3);
-                    }
-                    i += 1;
-                }
-                _ => i += 1,
-            }
-        }
-        None
-    }
 }
 
 // ---- strategies
@@ -593,31 +1051,51 @@ fn pt(x: i32) -> i32 {
     x * 65536
 }
 
+const MAX_DIMEN: i32 = (1 << 30) - 1;
+
 fn glue_strategy() -> impl Strategy<Value = GlueSpec> {
     (0i32..8, 0i32..6, prop_oneof![9 => Just(0u8), 1 => 1u8..4], 0i32..4).prop_map(|(w, st, so, sh)| GlueSpec { width: pt(w) + 13107, stretch: pt(st) / 2, stretch_order: so, shrink: pt(sh) / 3, shrink_order: 0 })
 }
 
+/// \spaceskip and \xspaceskip: the everyday values of `glue_strategy`, the shapes around TeX's "is it zero_glue"
+/// test and the signs, and amounts that make TeX 1044 overflow.
+fn space_skip_strategy() -> impl Strategy<Value = GlueSpec> {
+    let sel = |v: Vec<i32>| proptest::sample::select(v);
+    prop_oneof![
+        5 => glue_strategy(),
+        3 => (sel(vec![0, 0, 0, pt(2) + 13107, -pt(1) - 13107, pt(5)]), sel(vec![0, 0, 65536, -65536, 40000, pt(3)]), prop_oneof![3 => Just(0u8), 1 => 1u8..4], sel(vec![0, 0, 65536, -65536, 30000]))
+            .prop_map(|(width, stretch, stretch_order, shrink)| GlueSpec { width, stretch, stretch_order, shrink, shrink_order: 0 }),
+        3 => (sel(vec![0, pt(20), -pt(20), MAX_DIMEN]), sel(vec![0, pt(17), pt(600), -pt(600), MAX_DIMEN, -MAX_DIMEN]), prop_oneof![4 => Just(0u8), 1 => 1u8..4], sel(vec![0, pt(17), -pt(17), pt(600), MAX_DIMEN, -MAX_DIMEN]))
+            .prop_map(|(width, stretch, stretch_order, shrink)| GlueSpec { width, stretch, stretch_order, shrink, shrink_order: 0 }),
+    ]
+}
+
 fn skip_strategy() -> impl Strategy<Value = GlueSpec> {
     prop_oneof![
-        3 => Just(GlueSpec::zero()),
-        1 => (0i32..20, 0i32..30).prop_map(|(w, s)| GlueSpec { width: pt(w), stretch: pt(s), stretch_order: 0, shrink: 0, shrink_order: 0 }),
-        1 => (0i32..10).prop_map(|w| GlueSpec { width: pt(w), stretch: pt(1), stretch_order: 1, shrink: 0, shrink_order: 0 }),
+        12 => Just(GlueSpec::zero()),
+        4 => (0i32..20, 0i32..30).prop_map(|(w, s)| GlueSpec { width: pt(w), stretch: pt(s), stretch_order: 0, shrink: 0, shrink_order: 0 }),
+        4 => (0i32..10).prop_map(|w| GlueSpec { width: pt(w), stretch: pt(1), stretch_order: 1, shrink: 0, shrink_order: 0 }),
+        1 => (0i32..10, 0i32..4, 0i32..4).prop_map(|(w, st, sh)| GlueSpec { width: pt(w), stretch: pt(st), stretch_order: 0, shrink: pt(sh), shrink_order: 0 }),
+        1 => (1i32..10, 0i32..20).prop_map(|(w, s)| GlueSpec { width: -pt(w), stretch: pt(s), stretch_order: 0, shrink: 0, shrink_order: 0 }),
+        1 => (1u8..4, 0u8..4).prop_map(|(a, b)| GlueSpec { width: 0, stretch: 0, stretch_order: a, shrink: 0, shrink_order: b }),
     ]
 }
 
 fn bp_strategy() -> impl Strategy<Value = BreakParams> {
     (
         proptest::collection::vec(60i32..320, 1..4),
-        proptest::collection::vec(0i32..30, 0..4),
+        // indents: none, one per width (the \parshape form, whose last pair serves the lines beyond it) or any number
+        (proptest::collection::vec(0i32..30, 3), prop_oneof![3 => Just(0usize), 4 => Just(usize::MAX), 3 => 0usize..4]),
         (prop_oneof![Just(0i32), Just(150), Just(-50), Just(10000)], prop_oneof![Just(0i32), Just(150), Just(7)], prop_oneof![Just(0i32), Just(100), Just(33)], prop_oneof![Just(0i32), Just(5), Just(-5)]),
         (skip_strategy(), skip_strategy()),
         prop_oneof![4 => Just(GlueSpec { width: 0, stretch: 65536, stretch_order: 1, shrink: 0, shrink_order: 0 }), 1 => Just(GlueSpec::zero()), 1 => Just(GlueSpec { width: pt(20), stretch: pt(100), stretch_order: 0, shrink: 0, shrink_order: 0 })],
         (prop_oneof![Just(-1i32), Just(100), Just(10000)], prop_oneof![Just(200i32), Just(1000), Just(9999), Just(10000)], prop_oneof![3 => Just(0i32), 1 => Just(pt(20))], prop_oneof![6 => Just(0i32), 1 => Just(1), 1 => Just(-1)]),
         (prop_oneof![Just(50i32), Just(0), Just(500)], prop_oneof![Just(50i32), Just(0)], prop_oneof![Just(10i32), Just(0), Just(200)]),
+        prop_oneof![7 => Just(0u8), 3 => 1u8..4],
     )
-        .prop_map(|(widths, indents, (club, widow, broken, interline), (left_skip, right_skip), par_fill_skip, (pre_tolerance, tolerance, emergency_stretch, looseness), (hyphen_penalty, ex_hyphen_penalty, line_penalty))| BreakParams {
+        .prop_map(|(widths, (indents, n_indents), (club, widow, broken, interline), (left_skip, right_skip), par_fill_skip, (pre_tolerance, tolerance, emergency_stretch, looseness), (hyphen_penalty, ex_hyphen_penalty, line_penalty), pre_vlist)| BreakParams {
+            indents: indents.into_iter().take(if n_indents == usize::MAX { widths.len() } else { n_indents }).map(pt).collect(),
             widths: widths.into_iter().map(pt).collect(),
-            indents: indents.into_iter().map(pt).collect(),
             club,
             widow,
             broken,
@@ -632,12 +1110,14 @@ fn bp_strategy() -> impl Strategy<Value = BreakParams> {
             hyphen_penalty,
             ex_hyphen_penalty,
             line_penalty,
+            pre_vlist,
         })
 }
 
 fn word_strategy() -> impl Strategy<Value = String> {
     let pool = vec![
         "difficult", "office", "fjord", "AV", "To", "Wolf", "e.g.", "end.", "A.", "NASA.", "what?", "yes!", "so:", "and;", "but,", "(see)", "don't", "x-ray", "one--two", "efficient", "waffle", "fluff", "affine", "The", "quick", "brown", "hyphenation", "Contents", "3.0", "typesetting", "a", "I", "wonderful", "representation", "characteristically", "'quoted'", "[x]", "Mr.", "etc.)", "fi", "ffl",
+        "``so''", "?`que", "!`si", "em---dash", "-", "well-",
     ];
     prop_oneof![
         5 => proptest::sample::select(pool).prop_map(|s| s.to_string()),
@@ -646,27 +1126,71 @@ fn word_strategy() -> impl Strategy<Value = String> {
     ]
 }
 
+/// TeX adds up the glue of a line in 32 bits and so does HBox::pack: the paragraph ends where the sum of the
+/// inter-word glue amounts given by TeX's rules would pass 20000pt, in width, stretch or shrink (reachable only with
+/// amounts near max_dimen, or with the space factor 1 that multiplies the shrink by 1000).
+fn bound_glue_totals(mut c: TextCase) -> TextCase {
+    const LIMIT: i64 = 20000 * 65536;
+    FONTS.with(|fs| {
+        let (plan, active) = font_plan(c.font_setup);
+        let f = &fs[plan[active as usize]];
+        loop {
+            let m = model_spaces(&c, f, Deviations::default());
+            let sum = |sel: fn(&Glue) -> i32| m.glues.iter().map(|g| (sel(g) as i64).abs()).sum::<i64>();
+            if c.words.len() <= 1 || (sum(|g| g.width.0) <= LIMIT && sum(|g| g.stretch.0) <= LIMIT && sum(|g| g.shrink.0) <= LIMIT) {
+                break;
+            }
+            c.words.pop();
+        }
+    });
+    c
+}
+
+fn blank_strategy() -> impl Strategy<Value = u8> {
+    prop_oneof![6 => Just(0u8), 4 => 1u8..(BLANKS.len() as u8)]
+}
+
 fn text_case_strategy() -> impl Strategy<Value = TextCase> {
     (
         proptest::collection::vec(word_strategy(), 0..45),
         proptest::bool::weighted(0.1),
-        proptest::option::weighted(0.35, glue_strategy()),
-        proptest::option::weighted(0.3, glue_strategy()),
+        proptest::option::weighted(0.35, space_skip_strategy()),
+        proptest::option::weighted(0.3, space_skip_strategy()),
         0u8..3,
         proptest::collection::vec((prop_oneof![Just(b'.'), Just(b','), Just(b'a'), Just(b'e'), Just(b'A'), Just(b')'), Just(b'!')], prop_oneof![Just(0i32), Just(1), Just(999), Just(1000), Just(1001), Just(1999), Just(2000), Just(3000), Just(32767)]), 0..5),
         proptest::bool::weighted(0.6),
         bp_strategy(),
+        (proptest::collection::vec(blank_strategy(), 0..6), blank_strategy(), prop_oneof![7 => Just(0u8), 3 => 1u8..(BLANKS.len() as u8 + 1)]),
+        (proptest::option::weighted(0.3, proptest::sample::select(vec!["end.", "A", "etc.)", "so:", "NASA.", "x,", "what? ", " a!", "(b)", "one. Two"])), prop_oneof![5 => Just(0u8), 5 => 1u8..4]),
     )
-        .prop_map(|(words, leading_space, space_skip, xspace_skip, sf_table, custom_sf, hyphenate, bp)| TextCase { words, leading_space, space_skip, xspace_skip, sf_table, custom_sf, hyphenate, bp })
+        .prop_map(|(words, leading_space, space_skip, xspace_skip, sf_table, custom_sf, hyphenate, bp, (seps, lead, trail), (primer, font_setup))| {
+            bound_glue_totals(TextCase { words, leading_space, space_skip, xspace_skip, sf_table, custom_sf, hyphenate, bp, seps, lead, trail, primer: primer.map(|s| s.to_string()), font_setup })
+        })
+}
+
+fn delem_strategy() -> impl Strategy<Value = DElem> {
+    prop_oneof![
+        5 => (proptest::char::range('a', 'z'), 0u8..2).prop_map(|(c, f)| DElem::Char(c, f)),
+        1 => Just(DElem::Char('-', 0)),
+        2 => (-2i32..4, 0u8..4).prop_map(|(w, k)| DElem::Kern(w * 30000, k)),
+        1 => (0i32..4).prop_map(|w| DElem::Rule(w * 40000)),
+        1 => Just(DElem::Lig('\u{c}', "fi".to_string())),
+    ]
 }
 
 fn item_strategy() -> impl Strategy<Value = Item> {
     prop_oneof![
-        8 => "[a-z]{1,8}".prop_map(Item::Word),
-        8 => glue_strategy().prop_map(Item::Glue),
-        3 => prop_oneof![Just(-10000i32), Just(-50), Just(0), Just(50), Just(9999), Just(10000)].prop_map(Item::Penalty),
-        2 => (0i32..5, any::<bool>()).prop_map(|(w, e)| Item::Kern(w * 30000, e)),
-        2 => ("[a-z-]{0,2}", "[a-z]{0,2}", 0u8..3).prop_map(|(a, b, r)| Item::Disc(a, b, r)),
+        16 => "[a-z]{1,8}".prop_map(Item::Word),
+        16 => glue_strategy().prop_map(Item::Glue),
+        6 => prop_oneof![Just(-10000i32), Just(-50), Just(0), Just(50), Just(9999), Just(10000)].prop_map(Item::Penalty),
+        4 => (0i32..5, any::<bool>()).prop_map(|(w, e)| Item::Kern(w * 30000, e)),
+        4 => ("[a-z-]{0,2}", "[a-z]{0,2}", 0u8..3).prop_map(|(a, b, r)| Item::Disc(a, b, r)),
+        2 => (-2i32..5, 0u8..4).prop_map(|(w, k)| Item::KernK(w * 30000, k)),
+        1 => (0i32..6, 0i32..3, 0i32..2).prop_map(|(w, h, d)| Item::Rule(w * 50000, h * 200000, d * 100000)),
+        1 => "[a-z]{0,3}".prop_map(Item::Box),
+        1 => "[a-z]{1,6}".prop_map(Item::Word1),
+        1 => prop_oneof![Just(Item::Lig('\u{c}', "fi".to_string())), Just(Item::Lig('\u{b}', "ff".to_string())), Just(Item::Lig('\u{7b}', "--".to_string()))],
+        3 => (proptest::collection::vec(delem_strategy(), 0..4), proptest::collection::vec(delem_strategy(), 0..4), 0u8..4).prop_map(|(a, b, r)| Item::DiscX(a, b, r)),
     ]
 }
 
@@ -675,9 +1199,13 @@ fn list_case_strategy() -> impl Strategy<Value = ListCase> {
 }
 
 pub fn run(ctx: &Ctx) {
-    ctx.rule("text cases: 0-45 words (ligature/kern sequences, space-factor punctuation, capitals before periods, explicit hyphens, long hyphenatable words, letterless tokens) set in cmr10 through TextPreprocessorImpl with \\spaceskip/\\xspaceskip zero or not and three space-factor tables, then broken with 1-3 line widths, 0-3 indents, club/widow/broken/interline penalties, left/right/parfill skips, tolerances, emergency stretch, looseness, hyphenation on or off; list cases: hand-built lists of words, glue, penalties, explicit and implicit kerns and discretionaries with pre/post/replace parts, biased to consecutive discardables. Oracle: the list spells the words; every inter-word glue equals TeX's space-factor machine; the list left by break_line is the prepared (hyphenated) list ending in \\penalty10000 \\parfillskip; with the breakpoints recomputed by break_line_all_attempts on a clone, the line boxes and penalties must equal a transcription of TeX's post_line_break (877-890 incl. the pruning of 879) item for item, with the requested width and shift; no later line begins with a discardable. non-trivial = >=3 lines and (a break at a discretionary, a discardable run >=2 at a break, or a space factor that changes a glue); distinct by case");
-    ctx.assume("cmr10 from the repository's corpus, registered as boxworks-bin does; baseline-skip glue between lines is ignored (not in the property)");
-    ctx.assume("breakpoint choice itself is decided by C04, glue setting of the line boxes by C15");
+    ctx.rule("text cases: 0-45 words (ligature/kern sequences incl. quote and dash ligatures, space-factor punctuation, capitals before periods, explicit hyphens, long hyphenatable words, letterless tokens) separated by runs of blanks, tabs and single ends of line, with or without leading and trailing blanks, set in cmr10 or a second corpus font registered as font 0 or 1 through a TextPreprocessorImpl that is fresh or has set another paragraph before, with \\spaceskip/\\xspaceskip absent, everyday, zero-width, negative or near max_dimen (overflow of TeX 1044) and three space-factor tables, then broken with 1-3 line widths, 0-3 indents, club/widow/broken/interline penalties, left/right/parfill skips (also shrinking, negative, zero with an infinite order), tolerances, emergency stretch, looseness, hyphenation on or off, into an empty vertical list or one that holds items already; list cases: hand-built lists of words in two fonts, ligatures, glue, penalties, kerns of all four kinds, rules, boxes and discretionaries whose pre/post lists hold characters, kerns, rules, ligatures and that replace 0-3 nodes, biased to consecutive discardables. Oracle: the list spells the words in the active font, its discretionaries are empty and follow hyphens, its kerns are font kerns; every inter-word glue equals TeX's space-factor machine (one glue per run of blanks; the glue of trailing blanks may be present or not); the breakpoints recomputed by break_line_all_attempts on a clone prepared as TeX 816 does increase and end at the end of the list; the line boxes and penalties appended by break_line must equal a transcription of TeX's post_line_break (877-890 incl. the pruning of 879) item for item, with the requested width and shift, and the earlier items of the vertical list must be untouched; no later line begins with a discardable. non-trivial = >=3 lines and (a break at a discretionary, a discardable run >=2 at a break, or a space factor that changes a glue); distinct by case");
+    ctx.assume("cmr10 and 6vcr8r from the repository's corpus, registered as boxworks-bin does; glue (baseline skip) and kerns between the lines are ignored (not in the property)");
+    ctx.assume("breakpoint choice itself is decided by C04, glue setting of the line boxes by C15; the hyphenated list is the implementation's (C14 decides whether it spells the words)");
+    ctx.assume("texts hold at most one end of line per run of blanks (two are a paragraph end in TeX) and no form feed or carriage return; an empty list is never broken (TeX 1096 does not call line_break for it)");
+    ctx.assume("not demanded because neither the statement nor TeX determines it: what break_line leaves in the caller's list; the GlueKind of the inserted skips; the indent of lines beyond an indent sequence that does not pair up with the widths. The remnant of the break item that TeX keeps in the line (penalty, zero-width kern, emptied discretionary) may be kept or dropped");
+    ctx.assume("no Math, Mark, Insertion, Adjust nodes in lists: HBox::pack has todo!() for them");
+    ctx.assume("the inter-word glue of a paragraph adds up to less than 20000pt in each component (32-bit sums in TeX and in HBox::pack)");
     let n = ctx.tier.pick(40_000u64, 600_000u64);
     run_generated(ctx, "text_paragraphs", n, text_case_strategy, |c: &TextCase, case| text_oracle(ctx, c, case));
     let n = ctx.tier.pick(80_000u64, 1_200_000u64);
